@@ -71,7 +71,24 @@ pub fn step(w: &mut World, e: &Value) -> Value {
 			w.init_send(&wn, &sl, &a)
 		}
 		"lock" => w.lock(&wn, &sl, e["stage"].as_str().unwrap_or("S1"), e["rep"].as_u64().unwrap_or(0) as usize),
-		"receive" => w.receive(&wn, &sl, e["dest"].as_str().unwrap_or(""), None),
+		"receive" => {
+			let tamper = e["tamper"].as_str().unwrap_or("");
+			if tamper == "feat1" {
+				// the S1 slate asking for the kernel features of a coinbase: cannot be served
+				let s = w.pick(&sl, "S1", 0).map(|mut s| {
+					s.kernel_features = 1;
+					s
+				});
+				if s.is_none() {
+					return json!({"ev": "receive", "w": wn, "sl": sl, "res": "skip"});
+				}
+				let mut r = w.receive(&wn, &sl, e["dest"].as_str().unwrap_or(""), s);
+				r["tamper"] = json!("feat1");
+				r
+			} else {
+				w.receive(&wn, &sl, e["dest"].as_str().unwrap_or(""), None)
+			}
+		}
 		"finalize" => {
 			let tamper = e["tamper"].as_str().unwrap_or("");
 			if tamper == "bogus" || tamper == "bogus_expired" {
@@ -101,7 +118,10 @@ pub fn step(w: &mut World, e: &Value) -> Value {
 		"post" => w.post(&sl),
 		"mine" => {
 			let to = e["to"].as_str().filter(|s| !s.is_empty()).map(|s| s.to_string());
-			w.mine(to.as_ref().map(|s| s.as_str()), &strs(&e["txs"]))
+			w.cb_key = e["key"].as_str().filter(|s| !s.is_empty()).map(|s| s.to_string());
+			let r = w.mine(to.as_ref().map(|s| s.as_str()), &strs(&e["txs"]));
+			w.cb_key = None;
+			r
 		}
 		"refresh" => w.refresh(&wn, e["minconf"].as_u64().unwrap_or(1)),
 		"cancel" => {
